@@ -111,9 +111,15 @@ def run(ctx):
         key = f"{o['kind']}:{o['proj']}:{o['flav']}:tmc{o['tmc']}:{o['fns']}:x{o['pt']['x'][0]}/{o['pt']['x'][1]}:{clause}"
         ctx.violation(key, f"{o['kind']}_{o['flav']} (projectile {o['proj']}, TMC={o['tmc']}, {o['fns']}): {clause} {ln['note']}",
                       dict(kind="C11", obligation=o))
+    # the arithmetic the combination is carried out with (Result.tla)
+    from .. import algebra
+    algebra.run(ctx, "C11")
 
 
 def replay(ctx, obj):
+    if obj.get("kind") == "algebra":
+        from .. import algebra
+        return algebra.replay(ctx, obj)
     ln = execute(obj["obligation"])
     bad = ctx.tlc_validate("Trace_C11", "Trace.cfg", [{k: v for k, v in ln.items() if k not in ("note", "doc_resid_milli")}])
     print({k: ln[k] for k in ("outcome", "nkeys", "resid_milli", "doc_resid_milli", "note")}, "verdict:", bad.get(ln["oid"], "ok"))
